@@ -379,6 +379,10 @@ def report(prop, tier, seed, mod, hs, agg, wall, timed_out):
             if rv["labels"] != fw["labels"] or (rv["paths"] == 0) != (fw["paths"] == 0):
                 problems.append(f"HARNESS-ERROR exploration order changes the verdict (state leaking between paths?): {key[0]} {key[1]}: forward {fw['paths']} paths {sorted(fw['labels'])}, reversed {rv['paths']} paths {sorted(rv['labels'])}")
     agg["reversed_configs"] = nrev
+    xh = None
+    if tier == "thorough" and not os.environ.get("VERIF_ONLY"):
+        xh, xp = crosshair_opinion(prop, meta)
+        problems.extend(xp)
     required = set() if os.environ.get("VERIF_ONLY") else set(meta.get("labels", []))
     reached = set().union(*agg["witness"].values()) if agg["witness"] else set()
     for lab in sorted(required - reached):
@@ -403,7 +407,7 @@ def report(prop, tier, seed, mod, hs, agg, wall, timed_out):
             functions_encoded=[f"{a}:{c} {b}" for a, b, c in sorted(agg["functions"])],
             bounds=meta.get("bounds", {}).get(tier, meta.get("bounds", {})),
             outside_claim=meta.get("outside", []),
-            extra=meta.get("extra", {}),
+            extra=dict(meta.get("extra", {}), **({"second_engine": xh} if xh else {})),
             stubs=meta.get("stubs", []),
             solver="z3 " + _z3v(), exhaustive=exhaustive, second_solver_checked=agg.get("second", 0),
             known_findings_seen=sorted(known_hits), violations_found=len(vio_paths), configurations_rerun_in_reversed_path_order=agg.get("reversed_configs", 0),
@@ -427,6 +431,46 @@ def report(prop, tier, seed, mod, hs, agg, wall, timed_out):
     if problems:
         return 2
     return 0
+
+
+def crosshair_opinion(prop, meta):
+    """Thorough tier, C10 and C14: CrossHair 0.0.110 as an independent second engine on a harness made of integers/tuples/dicts only
+    (psv/xhair/<file>.py calls the real function).  Returns (record for the evidence, list of problems).  A refutation of the main
+    condition while psym proved the property is an engine disagreement (HARNESS-ERROR), never a verdict by itself; 'Not confirmed'
+    is inconclusive; the planted wrong condition must be refuted, otherwise the opinion is void."""
+    import subprocess
+
+    f = meta.get("crosshair")
+    if not f:
+        return None, []
+    target = os.path.join(ROOT, ".deps_xh")
+    if not os.path.isdir(os.path.join(target, "crosshair")):
+        r = subprocess.run([sys.executable, "-m", "pip", "install", "-q", "--no-index", "--find-links", "/opt/veriftools/wheels", "--target", target, "crosshair-tool"],
+                           capture_output=True, text=True, env=dict(os.environ, PIP_NO_INDEX="1"))
+        if r.returncode != 0:
+            return dict(status="not available: " + r.stderr[-200:]), []
+    t0 = time.time()
+    env = dict(os.environ, PYTHONPATH=target + os.pathsep + ROOT)
+    try:
+        r = subprocess.run([sys.executable, "-m", "crosshair", "check", "--report_all", "--per_condition_timeout", "60", os.path.join(ROOT, "psv", "xhair", f)],
+                           capture_output=True, text=True, env=env, timeout=900)
+    except subprocess.TimeoutExpired:
+        return dict(status="timed out"), []
+    out = r.stdout + r.stderr
+    src = open(os.path.join(ROOT, "psv", "xhair", f)).read().split("\n")
+    planted_line = next(i + 1 for i, l in enumerate(src) if l.startswith("def planted_wrong"))
+    confirmed = out.count("Confirmed over all paths")
+    unconfirmed = out.count("Not confirmed") + out.count("Unable to meet precondition")
+    refuted_planted = "planted_wrong(" in out and "error:" in out
+    refuted_main = [l for l in out.splitlines() if "error:" in l and "planted_wrong(" not in l]
+    rec = dict(engine="crosshair-tool 0.0.110", file="psv/xhair/" + f, conditions_confirmed_over_all_paths=confirmed, conditions_inconclusive=unconfirmed,
+               planted_wrong_condition_refuted=refuted_planted, refutations_of_real_conditions=refuted_main[:3], seconds=round(time.time() - t0, 1))
+    problems = []
+    if refuted_main:
+        problems.append("HARNESS-ERROR engines disagree: CrossHair refutes a condition psym proved: " + refuted_main[0][:300])
+    if not refuted_planted:
+        rec["status"] = "void: the planted wrong condition was not refuted"
+    return rec, problems
 
 
 def _z3v():
